@@ -363,6 +363,11 @@ func worldC03(w *World) {
 					w.Violation("trailer", "a trailer field did not reach the client as a trailer with the same values (%s) | trailer %q backend %q client trailers %q client headers %q", class, name, st[name], rt[name], recv[name])
 				}
 			}
+			for _, name := range names {
+				if _, asHeader := sent[name]; !asHeader && len(recv[name]) > 0 {
+					w.Violation("trailer", "a field the backend sent only as a trailer reached the client in the header block | %q: %q", name, recv[name])
+				}
+			}
 			for name := range rt {
 				if _, ok := st[name]; !ok {
 					w.Violation("trailer", "client received a trailer the backend did not send | %q: %q", name, rt[name])
